@@ -625,6 +625,20 @@ def decorator_scenarios():
         return thunk
     out.append(expect_ok(mk_same(L), "output_same ok"))
     out.append(expect_refusal(mk_same(T), "return", "output_same wrong dimension"))
+    # the verdict never depends on the NUMERIC TYPE of a bare number: a non-zero built-in int / float, a SymPy Integer / Float /
+    # Rational where a dimensional quantity is required is refused, as a result and as an argument; zero and infinity match anything;
+    # every one of them is accepted where the declared unit is dimensionless
+    bare = [("int", 6), ("float", 6.0), ("negative float", -2.5), ("big int", 10**6), ("sympy Integer", sp.Integer(6)),
+            ("sympy Float", sp.Float(6.5)), ("sympy Rational", sp.Rational(1, 3))]
+    for label, v in bare:
+        out.append(expect_refusal(mk_out(u.length, v), "return", f"output: bare non-zero {label} where a length is declared"))
+        out.append(expect_refusal(mk_out(length_sym, v), "return", f"output: bare non-zero {label} where a length symbol is declared"))
+        out.append(expect_ok(mk_out(u.Dimension(1), v), f"output: bare {label} where a dimensionless result is declared"))
+        out.append(expect_refusal(lambda ran, v=v: mk(a_=u.length)(ran)(v), "a_", f"input: bare non-zero {label} where a length is declared"))
+        out.append(expect_refusal(lambda ran, v=v: mk(a_=u.length)(ran)([L, v]), "a_[1]", f"input sequence: bare non-zero {label} after a length"))
+    for label, v in (("int zero", 0), ("float zero", 0.0), ("sympy zero", sp.Integer(0)), ("float infinity", float("inf")), ("sympy oo", sp.oo)):
+        out.append(expect_ok(mk_out(u.length, v), f"output: bare {label} matches any declared dimension"))
+        out.append(expect_ok(lambda ran, v=v: mk(a_=u.length)(ran)(v), f"input: bare {label} matches any declared dimension"))
     return out
 
 
@@ -729,6 +743,22 @@ def NOT_A_TEMPERATURE():
             Quantity(5 * u.second), Quantity(300 * u.kelvin * u.meter)]
 
 
+N_EVALUATE = 7 + 8
+
+
+def _evaluate_extra():
+    """quantities whose dimension is not spanned by the seven SI base units (plane angle), alone, inside functions,
+    powers and sums, next to a symbol; a dimensionless quantity; a prefixed unit"""
+    from symplyphysics import Quantity, angle_type
+    u = _units()
+    x = sp.Symbol("x")
+    deg = Quantity(30 * u.degree)
+    ang = Quantity(2, dimension=angle_type)
+    # (no information quantity: convert_to_si refuses bytes on the unchanged tree -- there is no SI unit to convert them to)
+    return [deg, Quantity(2 * u.kilometer) * sp.sin(deg), deg**2 + 1, x * ang, sp.cos(ang) + ang * x,
+            Quantity(5) * x + Quantity(7), Quantity(2 * u.radian / u.second) * Quantity(3 * u.second), u.kilo * u.meter * x]
+
+
 def check_evaluate(i):
     """evaluate_expression leaves no quantity atom and replaces each by its SI number"""
     from sympy.physics.units import Quantity as SymQuantity
@@ -738,6 +768,7 @@ def check_evaluate(i):
     x = sp.Symbol("x")
     exprs = [5 * u.kilometer, Quantity(3 * u.kilometer) * u.kilometer + x * u.meter**2, x * u.speed_of_light**2, Quantity(2 * u.gram) * x + u.kilogram,
              sp.sqrt(Quantity(4 * u.meter**2)) * x, u.newton * x / Quantity(2 * u.second), sp.sin(x) * Quantity(3 * u.joule) - u.joule]
+    exprs += _evaluate_extra()
     e = exprs[i]
     r = evaluate_expression(e)
     if r.atoms(SymQuantity):
@@ -755,7 +786,7 @@ def search_convert(seed=0, budget=0):
         why = check_celsius(i)
         if why:
             return ("celsius", i), why, n
-    for i in range(7):
+    for i in range(N_EVALUATE):
         n += 1
         try:
             why = check_evaluate(i)
